@@ -192,6 +192,10 @@ func (f *Frame) loopKey(li *loopInfo) string {
 	var pos token.Pos
 	// find a position inside the loop statement: the header's first positioned instruction or its If
 	for _, in := range li.header.Instrs {
+		switch in.(type) {
+		case *ssa.Phi, *ssa.DebugRef:
+			continue
+		}
 		if in.Pos().IsValid() {
 			pos = in.Pos()
 			break
